@@ -150,3 +150,18 @@ Definition run (c : case) : verdict :=
    end, holds c).
 
 Definition bad_cases (base : N) (cs : list case) := bad_from run base cs.
+
+(* for the harness developer: the first operation at which model and implementation differ *)
+Fixpoint diag_from (ordp ordc : list step) (ws : world * list status) (ops : list (mop * obs)) (i : N) : option (N * mop * obs * obs) :=
+  match ops with
+  | [] => None
+  | (o, ob) :: r =>
+      let ws' := mstep ordp ordc ws o in
+      let mo := model_obs (fst (fst ws)) (fst ws') (snd ws') in
+      if negb (crashed (fst (fst ws'))) && obs_eqb mo ob then diag_from ordp ordc ws' r (i + 1) else Some (i, o, mo, ob)
+  end.
+Definition diagnose (c : case) :=
+  match c with
+  | TD ordp ordc threads ops => diag_from ordp ordc ((init, threads), map (fun _ => SNew) threads) ops 0
+  | CL _ _ _ => None
+  end.
